@@ -44,7 +44,8 @@ OBLIGATIONS = {"intersect": 100, "intersect:partial-left": 5,
                "voronoi:more-points-than-cells": 5,
                "voronoi:clustered-points": 10, "voronoi:grid-origin-not-0": 30,
                "intersect:reused-object-other-set": 30, "intersect:split-grid": 50,
-               "intersect:target-dtype": 30}
+               "intersect:target-dtype": 30, "intersect:same-shape-shifted": 10,
+               "voronoi:near-tie": 5}
 
 
 def mods():
@@ -413,6 +414,16 @@ def run(ctx):
             cnc, cnr = int(rng.integers(1, 4)), int(rng.integers(1, 4))
             cxll = fxll + ext_x + ccsz * float(rng.uniform(0.5, 3))
             cyll = fyll - cnr * ccsz - ccsz
+        if it % 12 == 7:
+            # a grid of the same shape and cell size as the flow grid, shifted by whole
+            # cells, at map coordinates (the shift is tiny relative to the origin)
+            ctx.tag("intersect:same-shape-shifted")
+            fxll, fyll = 500000.0, 6000000.0
+            fine = {"nrows": nr, "ncols": nc, "csz": fcsz, "xll": fxll, "yll": fyll}
+            ccsz = fcsz
+            cnc, cnr = nc, nr
+            cxll = fxll + fcsz * int(rng.integers(-3, 4))
+            cyll = fyll + fcsz * int(rng.integers(-3, 4))
         coarse = {"nrows": cnr, "ncols": cnc, "csz": ccsz, "xll": float(cxll),
                   "yll": float(cyll)}
         case = {"kind": "intersect", "fine": fine, "coarse": coarse, "cells": cells,
@@ -438,6 +449,17 @@ def run(ctx):
                 rng.integers(-3, 4, size=(npts, 2)) / 8.0
             if npts >= 2 and rng.random() < 0.7:
                 pts[-1] = [float(cx), float(cy)]
+        elif it % 8 == 2 and cells and npts >= 2:
+            # two points at (almost) the same distance from a cell centre, on opposite
+            # sides; the later one closer by a sliver (2^-20 .. 2^-44 of a cell)
+            ctx.tag("voronoi:near-tie")
+            gv = Geom(nr, nc, 0.0, 0.0, 1.0)
+            cx, cy = gv.centre(int(cells[int(rng.integers(0, len(cells)))]))
+            d = float(rng.integers(1, 5))
+            sl = 2.0 ** -int(rng.choice([20, 30, 36, 40, 44]))
+            pts = rng.integers(-6, 30, size=(npts, 2)) / 2.0
+            pts[0] = [float(cx) - d, float(cy)]
+            pts[1] = [float(cx) + d - sl, float(cy)]
         elif it % 4 == 0:
             pts = rng.integers(-2, 2 * max(nr, nc) + 4, size=(npts, 2)) / 2.0
         elif it % 4 == 1:
